@@ -108,3 +108,10 @@ add('C07', 'model-based stateful testing over key-management histories with byte
     'revoker, decrypt, add_subkey and bind on every public-only object, including twins derived before later additions.',
     'Trusted: secret integers come from the committed key pool (generated with cryptography), refpgp.wire/armor for splitting. Early twins are only checked for secrecy and refusal.',
     'DESIGN.md 4/C07')
+add('C16', 'model-based configuration testing: covering sweep of operation x key form x enforcement x identity selection over fixed and Hypothesis-generated flag assignments, with the acting component established by the reference (signature verification / session-key decryption)',
+    'Certificates with flag subsets on 1-2 identities of the primary and on 0-3 subkeys (binding histories of 1-2 signatures incl. empty flag sets), made by the reference signer; '
+    'sign, certify, revoke, add_subkey, encrypt, decrypt and first self-certification on public / private / locked / unlocked / after-failed-unlock / identity-less forms with '
+    'enforcement on and off: the component named in the output must grant the capability per its most recent self-signature and be the one that acted; nothing-qualifies refuses '
+    '(or proceeds when enforcement is off); private operations refuse on public and locked keys, encryption refuses on private keys; decryption finds the addressed subkey.',
+    'Trusted: refpgp signer/verifier/PKESK decryptor. Which of several qualifying components is chosen is not asserted.',
+    'DESIGN.md 4/C16')
